@@ -4,6 +4,8 @@ Driver glue for C46.  Text on the wire: code points in decimal joined by `,` (`-
   `C46 quote <t>`                     → quoted text
   `C46 parse <d>`                     → `args=<t>;<t>|kw=<k>=<v>;…` (kw sorted by key) or `!raised RuntimeError`
   `C46 roundtrip <item> <item> …`     items `p:<t>` / `k:<key>:<t>`: builds the description with `quote`, parses it
+  `C46 plugin <item> <item> …`        the same (first item = the endpoint name), then the name is taken off: what a plugin parser receives
+  `C46 slot <sel> <item> <item> …`    the same, then one slot `a:<index>` / `k:<key>` of the parse: the text (or `!missing`)
 -/
 namespace Twisted.Drv.C46
 open Twisted.Endpoints.Quote
@@ -35,6 +37,12 @@ def decItem (s : String) : Option Item :=
       pure (Item.kw k t)
   | _ => none
 
+def decSel (s : String) : Option Sel :=
+  match s.splitOn ":" with
+  | ["a", i] => i.toNat?.map Sel.arg
+  | ["k", k] => (decText k).map Sel.key
+  | _ => none
+
 def handle (args : List String) : String :=
   match args with
   | ["quote", t] => match decText t with
@@ -47,6 +55,19 @@ def handle (args : List String) : String :=
     match items.mapM decItem with
     | some rs => showParsed (parse (describe rs))
     | none => "bad-op"
+  | "plugin" :: items =>
+    match items.mapM decItem with
+    | some (r :: rs) => showParsed (dropName (parse (describe (r :: rs))))
+    | _ => "bad-op"
+  | "slot" :: sel :: items =>
+    match decSel sel, items.mapM decItem with
+    | some s, some (r :: rs) =>
+      match parse (describe (r :: rs)) with
+      | .ok p => match select p s with
+        | some t => encText t
+        | none => "!missing"
+      | .error e => showParsed (.error e)
+    | _, _ => "bad-op"
   | _ => "bad-op"
 
 end Twisted.Drv.C46
